@@ -338,6 +338,69 @@ static void run_toa(const std::vector<std::string> &w, out &o)
     if (base == 2 && bits == 64 && p >> 62) o.tag("longest-text");
 }
 
+// Odometer reference for sweeps: the canonical text of v+1 is obtained from the
+// text of v by incrementing (or, for negative v, decrementing) the digit string
+// -- no division anywhere, so it shares nothing with the code under test.
+struct Odometer
+{
+    unsigned base;
+    bool neg;
+    int n;
+    uint8_t d[72]; // most significant first, digit values
+    void seed(uint64_t v, int bits, bool sgn, unsigned b)
+    {
+        base = b;
+        char t[80];
+        int len = ref_text(v, bits, sgn, b, false, t);
+        neg = t[0] == '-';
+        n = 0;
+        for (int i = neg ? 1 : 0; i < len; i++) d[n++] = (uint8_t)ref_dv((uint8_t)t[i]);
+    }
+    void next()
+    {
+        if (neg)
+        { // magnitude - 1
+            int i = n - 1;
+            while (d[i] == 0) d[i--] = (uint8_t)(base - 1);
+            d[i]--;
+            if (d[0] == 0 && n > 1) { memmove(d, d + 1, --n); }
+            if (n == 1 && d[0] == 0) neg = false;
+        }
+        else
+        { // magnitude + 1
+            int i = n - 1;
+            while (i >= 0 && d[i] == base - 1) d[i--] = 0;
+            if (i < 0) { memmove(d + 1, d, n++); d[0] = 1; }
+            else d[i]++;
+        }
+    }
+    int text(bool upper, char *out) const
+    {
+        int k = 0;
+        const char *al = upper ? AL_UP : AL_LO;
+        if (neg) out[k++] = '-';
+        for (int i = 0; i < n; i++) out[k++] = al[d[i]];
+        out[k] = 0;
+        return k;
+    }
+};
+
+// render + parse back of one value against a given reference text; no allocation
+static bool fast_ok(int k, uint64_t v, unsigned base, const char *ref, int len)
+{
+    uint8_t *buf = g_block + BLK - (len + 1);
+    char *ret = call_toa(k, v, (char *)buf, (uint8_t)base);
+    bool ok = ret == (char *)buf + len && memcmp(buf, ref, len + 1) == 0 && buf[-1] == 0xA5;
+    if (ok)
+    {
+        char *e = 0;
+        uint64_t back = call_ato(k, (const char *)buf, (uint8_t)base, &e);
+        ok = back == (v & wmask(KBITS[k])) && e == (char *)buf + len;
+    }
+    memset(buf - 1, 0xA5, len + 2);
+    return ok;
+}
+
 static void run_rng(const std::vector<std::string> &w, out &o, bool sweep)
 {
     int k = kind_of(w[1]);
@@ -349,22 +412,41 @@ static void run_rng(const std::vector<std::string> &w, out &o, bool sweep)
     fnv h;
     RoundTrip r;
     uint64_t v = lo;
+    o.tag(sweep ? "sweep" : "range");
+    o.tag(KNAME[k]);
+    if (sweep)
+    {
+        if (base < 2 || base > 36) { o.result = "bad-op"; return; }
+        memset(g_block, 0xA5, BLK);
+        Odometer od;
+        od.seed(extend(v, bits, ksigned(k)), bits, ksigned(k), base);
+        char ref[80];
+        for (uint64_t i = 0; i < n; i++, v++)
+        {
+            uint64_t x = extend(v, bits, ksigned(k));
+            int len = od.text(!ksigned(k), ref);
+            if (!fast_ok(k, x, base, ref, len))
+            {
+                // the slow path recomputes the reference from scratch and words the failure
+                roundtrip(k, x, base, o, r, true);
+                if (o.oracle == "ok") o.fail("odometer reference `" + std::string(ref) + "` disagrees with the power-based reference at " + hexn(x, 16));
+                break;
+            }
+            od.next();
+        }
+        o.result = "swept " + std::to_string(n);
+        return;
+    }
     for (uint64_t i = 0; i < n; i++, v += stride)
     {
-        roundtrip(k, extend(v, bits, ksigned(k)), base, o, r, sweep);
-        if (sweep) continue;
+        roundtrip(k, extend(v, bits, ksigned(k)), base, o, r, false);
         for (uint8_t b : r.raw) h.byte(b);
         h.byte((uint8_t)r.ret);
         h.le64(r.have_back ? r.back : 0);
         h.byte(r.have_back ? (uint8_t)r.end : 0xff);
         if (o.oracle != "ok") break;
     }
-    if (sweep)
-        o.result = "swept " + std::to_string(n);
-    else
-        o.result = hexn(h.h, 16) + " " + hex(r.raw);
-    o.tag(sweep ? "sweep" : "range");
-    o.tag(KNAME[k]);
+    o.result = hexn(h.h, 16) + " " + hex(r.raw);
 }
 
 static void run_ato(const std::vector<std::string> &w, out &o)
@@ -578,6 +660,9 @@ static void emit_ato(int k, unsigned base, const std::string &s)
     printf("ato %s %u %s\n", KNAME[k], base, hex(s).c_str());
 }
 
+static uint64_t g_seed = 1;
+static const unsigned NPART = 16; // = thorough_seeds in checks/C07.json
+
 static void gen(rng &r, const std::string &tier)
 {
     bool th = tier == "thorough";
@@ -589,10 +674,22 @@ static void gen(rng &r, const std::string &tier)
     for (unsigned base = 2; base <= 36; base++)
         for (int k : {I8, U8})
             printf("rng %s %u %016llx 256 1\n", KNAME[k], base, k == I8 ? 0xffffffffffffff80ull : 0ull);
+    // every 16-bit value x every base on the code (oracle: odometer reference + parse back) ...
     for (unsigned base = 2; base <= 36; base++)
         for (int k : {I16, U16})
-            for (unsigned c = 0; c < 8; c++)
-                printf("rng %s %u %016llx 8192 1\n", KNAME[k], base, (unsigned long long)extend(c * 8192ull + (k == I16 ? 0x8000 : 0), 16, k == I16));
+            printf("sweep %s %u %016llx 65536\n", KNAME[k], base, k == I16 ? 0xffffffffffff8000ull : 0ull);
+    // ... and model against code on every 16-bit value for a subset of the bases: 2, 10, 16, 36
+    // and four seed-chosen ones in the quick tier; in the thorough tier the 35 bases are
+    // dealt out over the NPART parallel seeds, so one thorough run covers all of them
+    {
+        std::vector<unsigned> sel = {2, 10, 16, 36};
+        if (th) { for (unsigned b = 2; b <= 36; b++) if (b % NPART == g_seed % NPART) sel.push_back(b); }
+        else for (int i = 0; i < 4; i++) sel.push_back((unsigned)r.range(3, 35));
+        for (unsigned base : sel)
+            for (int k : {I16, U16})
+                for (unsigned c = 0; c < 8; c++)
+                    printf("rng %s %u %016llx 8192 1\n", KNAME[k], base, (unsigned long long)extend(c * 8192ull + (k == I16 ? 0x8000 : 0), 16, k == I16));
+    }
 
     // (2) boundary-biased single values, every kind x every base (+ bases outside 2..36)
     for (int k = 0; k < NKIND; k++)
@@ -710,18 +807,17 @@ static void gen(rng &r, const std::string &tier)
 
 }
 
-// (7) thorough: every 32-bit value in base 10 and 16 (oracle only).  bin/check runs the
-// seeds s*1000+0..7 in parallel; seed%8 selects the eighth of the 32-bit space.
-static uint64_t g_seed = 1;
+// (7) thorough: every 32-bit value in base 10 and 16, oracle only.  bin/check runs the seeds
+// s*1000+0..NPART-1 in parallel; seed % NPART selects the share of the 32-bit space.
 static void gen_wrapper(rng &r, const std::string &tier)
 {
     gen(r, tier);
     if (tier != "thorough") return;
-    unsigned part = (unsigned)(g_seed % 8);
+    uint64_t part = g_seed % NPART, span = (1ull << 32) / NPART;
     const uint64_t CH = 1ull << 21;
     for (int k : {I32, U32})
         for (unsigned base : {10u, 16u})
-            for (uint64_t lo = (uint64_t)part << 29; lo < ((uint64_t)part + 1) << 29; lo += CH)
+            for (uint64_t lo = part * span; lo < (part + 1) * span; lo += CH)
                 printf("sweep %s %u %016llx %llu\n", KNAME[k], base, (unsigned long long)extend(lo, 32, k == I32), (unsigned long long)CH);
 }
 
